@@ -268,6 +268,16 @@ type c11Valid struct {
 }
 
 func c11(r *vlib.Run) int {
+	min := c11Body(r)
+	if r.Tier == "thorough" || os.Getenv("VERIF_FORCE_RACE") != "" {
+		// the workers parse and evaluate 8 queries at a time: the race
+		// detector watches the parser and evaluator state meanwhile
+		r.RacePass([]string{"internal/mapr."}, func() { c11Body(r) })
+	}
+	return min
+}
+
+func c11Body(r *vlib.Run) int {
 	r.Rule("valid: random abstract query over a generated table's fields, rendered with random clause order, keyword case, " +
 		"comma/blank separators, optional 'by', back-quoted names, quoted strings containing keywords/commas/blanks; " +
 		"oracle A: exported fields of the parsed query == abstract query; oracle B: the parsed query, run by the real " +
